@@ -49,6 +49,13 @@ def scope_family():
             inner = ('jump', vs[-1], body)
             for v, d, q in reversed(list(zip(vs, stack, ['bind', 'exists', 'forall']))): inner = (q, v, d, inner if q != 'forall' else ('or', ('not', ('var', v)), inner) if False else inner)
             out += [('and', inner, psi), ('or', psi, inner)]
+    # a duplicate that mentions only the OUTER variable, inside an inner restricted scope and outside it (still inside the outer one)
+    for da, db in [('d', 'e'), (None, 'e'), ('d', None), ('d', 'd')]:
+        for psi in [('EF', X), ('AX', ('and', X, W))]:
+            inner = ('exists', 'xx', db, ('jump', 'xx', psi))
+            for q in ('bind', 'exists'):
+                body1, body2 = ('or', inner, psi), ('and', psi, ('not', inner))
+                out += [(q, 'x', da, body1 if q == 'bind' else ('jump', 'x', body1)), (q, 'x', da, body2 if q == 'bind' else ('jump', 'x', body2))]
     return out
 
 VARS = ['x', 'xx', 'xxx']
